@@ -19,6 +19,8 @@ RULE = ("(a) cell sweep: every operation/assertion x operand-type combination x 
         "operand value is satisfiable; and when the same assertion is repeated at top level on the same operand objects "
         "after having been made under a guard (either value) the satisfiable set is again exactly the unguarded one. (d) generated multi-statement bodies under nested guards. Non-trivial = the body "
         "raises when unguarded on these operand values (a, b, d) / every instance (c); distinct by case digest.")
+RULE += " Extensions (seeded rounds 10-15): regions whose conditions are derived from the conditions around them (c & e inside the region of c, ...), unpacking of raw wires."
+
 
 HUGE = ["pow", 3, 16384]       # 7817 decimal digits, decoded by ir.Machine._make_input
 FALSE_MODES = ["guard0", "guard10", "guard01", "guard00"]
